@@ -73,6 +73,14 @@ Theorem C09_goodbye_repeat_scheduled : forall st k ch now s,
                         (goodbyes_of st s).
 Proof. exact unregister_schedules_repeat. Qed.
 
+(* ... and the daemon has work due by then: the earliest time the model wants to be woken after
+   the unregister (due_work, what chk_C09 / chk_C07 hold the requested wake-up against) is at most
+   now + 120 whenever a goodbye was sent - for either family. *)
+Theorem C09_goodbye_repeat_is_due : forall st k ch now s i v4 m,
+  aget k (d_svcs st) = Some s -> In (i, v4, m) (goodbyes_of st s) ->
+  exists d, due_work (fst (unregister st k ch now)) = Some d /\ d <= now + 120.
+Proof. exact goodbye_repeat_is_due. Qed.
+
 Theorem C09_goodbye_repeat_same_packet_same_interface : forall st m i v4,
   unregister_resend st m i v4 = [] \/ unregister_resend st m i v4 = [OSend i v4 Mcast m].
 Proof. exact unregister_resend_same_packet. Qed.
@@ -128,6 +136,7 @@ Print Assumptions C09_goodbye_is_the_specified_one.
 Print Assumptions C09_goodbye_only_where_announced.
 Print Assumptions C09_goodbye_ttl_zero.
 Print Assumptions C09_goodbye_repeat_scheduled.
+Print Assumptions C09_goodbye_repeat_is_due.
 Print Assumptions C09_goodbye_repeat_same_packet_same_interface.
 Print Assumptions C09_shutdown_goodbyes_once.
 Print Assumptions C09_no_reannouncement.
